@@ -12,7 +12,7 @@ use crate::{
 
 pub struct Wire;
 
-type SpanRow = (u64, u64, Option<u64>, u64, Entries);
+pub type SpanRow = (u64, u64, Option<u64>, u64, Entries);
 
 // ---- harness-side reference encoding (used to *build* documents; the real encoder is compared
 // ---- with the Lean model, not with this)
@@ -148,7 +148,7 @@ fn site_of(kvs: &[(String, J)]) -> Option<Site> {
         fields: if let J::Arr(xs) = get(kvs, "fields")? { xs.iter().map(as_str).collect::<Option<_>>()? } else { return None },
     })
 }
-fn spans_rows(j: &J) -> Option<Vec<SpanRow>> {
+pub fn spans_rows(j: &J) -> Option<Vec<SpanRow>> {
     let J::Obj(kvs) = j else { return None };
     let mut rows: Vec<SpanRow> = kvs
         .iter()
@@ -160,7 +160,7 @@ fn spans_rows(j: &J) -> Option<Vec<SpanRow>> {
     rows.sort_by_key(|r| r.0);
     Some(rows)
 }
-fn meta_rows(j: &J) -> Option<Vec<(u64, Site)>> {
+pub fn meta_rows(j: &J) -> Option<Vec<(u64, Site)>> {
     let J::Obj(kvs) = j else { return None };
     let mut rows: Vec<(u64, Site)> = kvs
         .iter()
@@ -172,14 +172,14 @@ fn meta_rows(j: &J) -> Option<Vec<(u64, Site)>> {
     rows.sort_by_key(|r| r.0);
     Some(rows)
 }
-fn spans_tok(rows: &[SpanRow]) -> String {
+pub fn spans_tok(rows: &[SpanRow]) -> String {
     let mut s = rows.len().to_string();
     for (id, mt, parent, rc, values) in rows {
         s.push_str(&format!(" {id} {mt} {} {rc} {}", opt_num(*parent), entries_tok(values)));
     }
     s
 }
-fn meta_tok(rows: &[(u64, Site)]) -> String {
+pub fn meta_tok(rows: &[(u64, Site)]) -> String {
     let mut s = rows.len().to_string();
     for (id, site) in rows {
         s.push_str(&format!(" {id} {}", site.tok()));
